@@ -16,7 +16,7 @@ const (
 
 func init() {
 	Registry["C04"] = Spec{
-		Pkgs: map[string][]string{"v2": {"astvalidation", "astvisitor", "ast"}, "execution": {"engine", "graphql"}},
+		Pkgs: map[string][]string{"v2": {"astvalidation", "astvisitor", "ast", "astnorm"}, "execution": {"engine", "graphql"}},
 		Run:  runC04,
 		Explanation: "Decides the structural half of 'the admission sequence accepts exactly the spec-valid operations': every operation rule the package offers is registered in DefaultOperationValidator (or is one of four frozen, reasoned exceptions); every callback a validation visitor implements is registered with the walker (no dead rule code) and per-walk state of reusable rule visitors is reset when a document is entered; " +
 			"ExecutionEngine.Execute reaches planning only through the success edges of normalization (when needed), then of ValidateForSchema (err == nil ∧ Valid), and reaches the resolver only when planning reported no error; ValidateForSchema validates with DefaultOperationValidator and the validator reports Invalid whenever the report has errors. " +
@@ -158,6 +158,9 @@ func runC04(r *fw.Run) {
 	r.Rule("C04-R2", "every astvisitor callback a validation visitor implements is registered with the walker; slice/map state a rule visitor accumulates during the walk is reset in EnterDocument")
 	wiringObligations(r, "C04-R2", "astvalidation", nil)
 	visitorStateReset(r, "C04-R2", "astvalidation", map[string]string{})
+	// the admission sequence starts with normalization: a pooled normalizer that carries state over admits (or rejects)
+	// an operation depending on the previous one
+	visitorStateReset(r, "C04-R2", "astnorm", map[string]string{})
 
 	r.Rule("C04-R5", "the tree walker that drives validation/normalization (astvisitor.Walker) and the one that drives the printer (SimpleWalker) descend into the same children of every node kind")
 	walkerSiblings(r, "C04-R5")
